@@ -72,6 +72,20 @@ pub fn alphabet(inst: usize, allowed: &[u16], ids: &[u16], layouts: usize) -> Ve
             add(format!("[T({},{},A)++D]", pn, id), parts.concat(), Some(parts), *proto, true);
         }
     }
+    // V9 template flowsets carrying two template records: a copy of what may already be cached followed by a new
+    // definition, and the reverse order
+    if ids.len() >= 2 {
+        let (a, b) = (ids[0], ids[1]);
+        add(format!("T2(V9,[{}:A,{}:B])", a, b), v9p(vec![V9Set::Tpl(vec![V9Tpl { id: a, fields: layout(0) }, V9Tpl { id: b, fields: layout(1) }], 0)]), None, 9, true);
+        add(format!("T2(V9,[{}:B,{}:A])", b, a), v9p(vec![V9Set::Tpl(vec![V9Tpl { id: b, fields: layout(1) }, V9Tpl { id: a, fields: layout(0) }], 0)]), None, 9, true);
+        add(
+            format!("OT2(V9,[{},{}])", a, b),
+            v9p(vec![V9Set::OptTpl(vec![V9OptTpl { id: a, scope: vec![fs(1, 4)], opts: vec![fs(34, 4), fs(36, 4)] }, V9OptTpl { id: b, scope: vec![fs(1, 4)], opts: vec![fs(34, 4), fs(36, 4)] }], 0)]),
+            None,
+            9,
+            true,
+        );
+    }
     add("V5".into(), fixed_distinct(5, 2, 3), None, 0, false);
     add("V7".into(), fixed_distinct(7, 1, 4), None, 0, false);
     add("garbage".into(), (0..11).map(|j| fill(50, j) | 0x80).collect(), None, 0, false);
